@@ -29,8 +29,8 @@ MANIFEST = {
 
 PLAN = {
     # tier: (safety cfgs, liveness cfgs, tlc scenarios, generated scenarios, probes)
-    "quick": (["MC_Spy_safety_quick.cfg"], ["MC_Spy_live_quick.cfg"], 60, 140, 3),
-    "thorough": (["MC_Spy_safety_thorough.cfg"], ["MC_Spy_live_thorough.cfg"], 400, 1600, 12),
+    "quick": (["MC_Spy_safety_quick.cfg", "MC_Spy_inputs_quick.cfg"], ["MC_Spy_live_quick.cfg"], 60, 140, 3),
+    "thorough": (["MC_Spy_safety_thorough.cfg", "MC_Spy_inputs_quick.cfg"], ["MC_Spy_live_thorough.cfg"], 400, 1600, 12),
 }
 
 ASSUME = [
@@ -78,7 +78,9 @@ def run(prop, tier, replay=None):
         mc_info["MC_Spy_blocking_control.cfg"] = "PublishTerminates violated, as it must be"
         print("TLC negative control: a publisher that only ever blocks on a full queue violates PublishTerminates in the model (expected)")
         # 2. scenarios
-        scenarios = fs.tlc_scenarios(work, ntlc, seed) + fs.gen_scenarios(seed, ngen) + fs.flood_scenarios(seed, ("resume",) if tier == "quick" else ("resume", "fail"))
+        scenarios = fs.tlc_scenarios(work, ntlc, seed) + fs.gen_scenarios(seed, ngen) + fs.input_scenarios(seed, max(30, ngen // 4))
+        scenarios = fs.decorate_all(scenarios, seed)
+        scenarios += fs.flood_scenarios(seed, ("resume",) if tier == "quick" else ("resume", "fail"))
     # 3. the real spyServer
     lines, wall = fs.replay(work, scenarios, prop, probes=probes)
     by_t = {}
@@ -100,6 +102,12 @@ def run(prop, tier, replay=None):
     for ln in lines:
         if ln["ev"] == "Timeout":
             sig = fs.stall_signature(ln)
+            if ln["a"].get("op") == "Delivery":
+                # name the input class when the starved subscriber shares its client connection with another subscription
+                conns = {x["a"]["s"]: x["a"].get("conn") for x in by_t[ln["t"]] if x["ev"] == "SubscribeCalled"}
+                mine = conns.get(ln["a"].get("s"))
+                if mine and sum(1 for c in conns.values() if c == mine) > 1:
+                    sig += "/subscriptions-sharing-a-client-connection"
             stalls[sig] += 1
             sc = scenarios[ln["t"] - 1] if 0 < ln["t"] <= len(scenarios) else None
             verdict.add(sig, {"kind": "reproduced stall", "op": ln["a"].get("op"), "args": {k: ln["a"].get(k) for k in ("s", "v", "afterResume")},
